@@ -20,6 +20,14 @@ CHECKS = {
    technique="stateless model checking over hash-map iteration orders (ChoiceMap hook: every iteration is a choice point, all tapes with <= 2 deviations enumerated) and over prior in-process compilations (all ordered pairs / triples); byte comparison of the YAML",
    text="Iteration order of the compiler's hash maps is owned by the explorer through the ChoiceMap hook: for every corpus program the real pipeline is re-executed under every order of every hash-map iteration it performs (all n! orders up to 4 entries, <= 2 deviations) and after every ordered pair (thorough: triple) of other programs compiled before it in the same process; the YAML must be byte-identical. On the present tree the compile path meets zero choice points, i.e. no hash-ordered iteration can reach the output at all. A free-running run of the real oal-cli in 6 fresh processes per program is reported as confirmation only.",
    note="Only maps imported through the cfg-switched `use … HashMap` lines are controlled; time, threads and environment are not inputs of the compile path (it is single-threaded and reads no clock). The multi-process confirmation is sampling of hash seeds and is labelled as such."),
+ "C08": dict(engine="progspace", design="§4 C08",
+   technique="bounded-exhaustive enumeration of programs over colliding name pools (declarations, parameters, rec binders, qualified/unqualified imports); binding table of the real syntax trees compared with a reference lexical resolver; emitted document compared with a lexically scoped reference evaluator",
+   text="For every program with <= 2 (thorough 3) declarations over the name pools {a,b,x,f,g,m} (300 k programs quick) the `definition()` recorded on every variable node of the real trees must be exactly the binder the reference resolver names (innermost rec binder, parameter, declaration regardless of order, import by qualifier, built-in), programs with an unbound use or a duplicate declaration must be rejected with NotInScope / InvalidIdentifier, and the document must equal the reference evaluator's, which is lexically scoped - so a binding leaking from a caller (the implementation uses a dynamic scope stack) shows as a different document.",
+   note="Collisions the property does not order (declaration vs unqualified import or built-in, two imports providing one name, duplicate parameters) are explored for crashes only."),
+ "C09": dict(engine="progspace", design="§4 C09",
+   technique="bounded-exhaustive enumeration of declaration graphs (all assignments of 30/44 body forms to 2/3 declarations) and rec expressions; verdict compared with a reference kind + cycle rule, documents compared with the reference graph by bisimulation",
+   text="All declaration graphs on <= 3 declarations over every body form (object, array, alias, alternative, wrapper function, identity function, content), rec expressions nested / shadowing / inside functions applied with equal and different arguments, and recursion in imported modules: accept/reject must equal the independent rule 'the graph restricted to declarations that are not schemas is acyclic' (with kinds solved by a reference unifier); every accepted program must compile in finite time (watchdog) to a document whose $ref graph is closed, in which no component is a bare $ref chain to itself, and whose unfolding is bisimilar to the reference graph with no implicit component left over - two instantiations with different arguments can therefore never share a component.",
+   note="Reference kind checker covers single-module programs. Two genuine defects are listed as known findings (D16 orphan duplicate component, D17 unguarded alias cycle through a function)."),
  "C16": dict(engine="textspace", design="§4 C16",
    technique="explicit-state exhaustive enumeration of all texts <= n symbols x all offsets/positions/spans through the real conversion functions, compared with a line-table reference model",
    text="Every text of up to 6 (quick) / 8 (thorough) symbols over {a, é, €, 😉, LF, CRLF} is a state; every byte offset, every (line, character) position including out-of-range ones and every span is converted by the real position_to_utf8 / utf8_to_position / utf8_range_to_position / CharSpan::from and compared with an independent line-table model. The space is enumerated completely, so the verdict is 'no text of that size has a wrong conversion', which example tests cannot give.",
